@@ -119,10 +119,12 @@ func (es *EvidenceStore) GetFrozenMap() map[string]bool {
 	return fMap
 }
 
+// IterateRequests visits the allegation requests, also those opened earlier in the same block: the
+// duplicate check of a new allegation and the unstake guard have to see them
 func (es *EvidenceStore) IterateRequests(fn func(ar *AllegationRequest) bool) (stopped bool) {
 	key := []byte("_ark_")
 	prefixKey := append(es.prefix, key...)
-	return es.state.IterateRange(
+	return es.state.IterateRangeAll(
 		prefixKey,
 		storage.Rangefix(string(prefixKey)),
 		true,
